@@ -17,6 +17,8 @@
 (*   "md5":m,"dlen":f}             len/md5 of the bytes that came back     *)
 (*  {"op":"remove"|"flushb","p":n,..} {"op":"flush"|"reopen"|"compact",..} *)
 (*  {"op":"hang",..}               the call never returned                 *)
+(*  {"op":"loc","via":v,"id":i,"off":o,"size":s,"rid":..,"roff":..,        *)
+(*   "rsize":..[,"bytes":[b1..b5]],"res":"ok","seq":n}    binding E        *)
 (***************************************************************************)
 EXTENDS Storage, Sequences, Json, IOUtils
 
@@ -32,7 +34,8 @@ VARIABLES l,      \* position in Rec
           nviol,  \* how many there were
           devs,   \* the first MaxDevs <<line, finding>> pairs explained by a listed deviation (samples)
           ndev,   \* finding id -> number of events it explained
-          nexact, nwrites   \* anti-vacuity counters: exact reads of live objects, successful writes
+          nexact, nwrites,  \* anti-vacuity counters: exact reads of live objects, successful writes
+          nloc              \* ... and location round trips evaluated (binding E)
 
 MaxDevs == 40
 MaxViol == 2000
@@ -60,7 +63,7 @@ DevOf(e, out, pred) ==
   THEN pred.why ELSE "none"
 
 TInit == /\ l = 1 /\ comp = "dyn" /\ seq = 0 /\ a = A0 /\ c = C0 /\ w = [x \in {} |-> NoDesc]
-         /\ viol = <<>> /\ nviol = 0 /\ devs = <<>> /\ ndev = [f \in DevIds |-> 0] /\ nexact = 0 /\ nwrites = 0
+         /\ viol = <<>> /\ nviol = 0 /\ devs = <<>> /\ ndev = [f \in DevIds |-> 0] /\ nexact = 0 /\ nwrites = 0 /\ nloc = 0
 
 Good == UNCHANGED <<viol, nviol, devs, ndev>>
 Bad  == /\ viol' = (IF Len(viol) < MaxViol THEN Append(viol, l) ELSE viol) /\ nviol' = nviol + 1
@@ -73,9 +76,9 @@ Step ==
   /\ LET e == Rec[l] IN
      IF e.op = "new" THEN
         /\ comp' = e.comp /\ seq' = 0 /\ a' = A0 /\ c' = C0 /\ w' = [x \in {} |-> NoDesc]
-        /\ UNCHANGED <<viol, nviol, devs, ndev, nexact, nwrites>>
+        /\ UNCHANGED <<viol, nviol, devs, ndev, nexact, nwrites, nloc>>
      ELSE IF e.op = "hang" THEN
-        /\ Bad /\ UNCHANGED <<comp, seq, a, c, w, nexact, nwrites>>
+        /\ Bad /\ UNCHANGED <<comp, seq, a, c, w, nexact, nwrites, nloc>>
      ELSE
         LET seqok == e.seq = seq + 1
             nopanic == e.res # "panic"
@@ -87,7 +90,7 @@ Step ==
                   /\ c' = IF ok THEN CWrite(c, comp, e.p, e["end"]) ELSE c
                   /\ w' = (e.p :> [len |-> e.len, md5 |-> e.md5, blte0 |-> e.blte0, blte30 |-> e.blte30]) @@ w
                   /\ nwrites' = IF ok THEN nwrites + 1 ELSE nwrites
-                  /\ nexact' = nexact
+                  /\ nexact' = nexact /\ nloc' = nloc
                   /\ IF seqok /\ nopanic THEN Good ELSE Bad
              [] e.op = "read" ->
                   LET out   == Out(e, w)
@@ -97,25 +100,35 @@ Step ==
                   IN
                   /\ a' = a /\ w' = w
                   /\ c' = CReadDone(c, comp, e.p, e.res = "ok")
-                  /\ nwrites' = nwrites
+                  /\ nwrites' = nwrites /\ nloc' = nloc
                   /\ nexact' = IF out = "exact" /\ e.p \in a.live THEN nexact + 1 ELSE nexact
                   /\ IF seqok /\ ideal THEN Good
                      ELSE IF seqok /\ dev # "none" THEN Deviates(dev)
                      ELSE Bad
              [] e.op = "remove" ->
                   /\ a' = ARemove(a, e.p) /\ c' = CRemove(c, comp, e.p)
-                  /\ UNCHANGED <<w, nexact, nwrites>>
+                  /\ UNCHANGED <<w, nexact, nwrites, nloc>>
                   /\ IF seqok /\ nopanic THEN Good ELSE Bad
              [] e.op \in {"flush", "flushb"} ->
                   /\ a' = a /\ c' = (IF e.res = "ok" THEN CFlush(c, comp) ELSE c)
-                  /\ UNCHANGED <<w, nexact, nwrites>>
+                  /\ UNCHANGED <<w, nexact, nwrites, nloc>>
                   /\ IF seqok /\ nopanic THEN Good ELSE Bad
              [] e.op = "reopen" ->
                   /\ a' = a /\ c' = CReopen(c, e.dlen)
-                  /\ UNCHANGED <<w, nexact, nwrites>>
+                  /\ UNCHANGED <<w, nexact, nwrites, nloc>>
                   /\ IF seqok /\ nopanic THEN Good ELSE Bad
+             [] e.op = "loc" ->
+                  \* binding E: a location (archive id, offset) and size pushed through one of the places
+                  \* that serialise it (e.via) must come back identical, and where the 5 location bytes
+                  \* were recorded they must be PackLoc of the location
+                  LET same  == e.rid = e.id /\ e.roff = e.off /\ e.rsize = e.size
+                      bytes == ("bytes" \in DOMAIN e) => (e.bytes = PackLoc(e.id, e.off) /\
+                                                          UnpackLoc(e.bytes) = [id |-> e.id, off |-> e.off])
+                  IN
+                  /\ UNCHANGED <<a, c, w, nexact, nwrites>> /\ nloc' = nloc + 1
+                  /\ IF seqok /\ nopanic /\ LocOk(e.id, e.off) /\ same /\ bytes THEN Good ELSE Bad
              [] OTHER ->    \* compact and anything that does not touch the model
-                  /\ UNCHANGED <<a, c, w, nexact, nwrites>>
+                  /\ UNCHANGED <<a, c, w, nexact, nwrites, nloc>>
                   /\ IF seqok /\ nopanic THEN Good ELSE Bad
   /\ l' = l + 1
 
@@ -123,5 +136,5 @@ TNext == Step
 Done == (l = Len(Rec) + 1) =>
   PrintT(<<"VERDICT", ToJson([events |-> Len(Rec), violations |-> viol, nviol |-> nviol, deviations |-> devs,
                               dev_F04a |-> ndev["F04a"], dev_F04b |-> ndev["F04b"], dev_F04c |-> ndev["F04c"],
-                              exact_reads |-> nexact, ok_writes |-> nwrites])>>)
+                              exact_reads |-> nexact, ok_writes |-> nwrites, loc_evals |-> nloc])>>)
 =============================================================================
